@@ -394,7 +394,7 @@ theorem wholeLines_from_offset (L : List Item) (j k : Nat) :
 theorem itemsFrom_cut_at (L : List Item) (hv : ∀ it ∈ L, Valid it) (j k : Nat) :
     itemsFrom ((serialise L).take k) (serialise (L.take j)).length
       = wholeLines (L.drop j) (k - (serialise (L.take j)).length)
-        ++ (parseLine (dropCR (fragment (L.drop j) (k - (serialise (L.take j)).length)))).toList := by
+        ++ tornParse (fragment (L.drop j) (k - (serialise (L.take j)).length)) := by
   have e : (serialise L).drop (serialise (L.take j)).length = serialise (L.drop j) := by
     conv_lhs => arg 2; rw [← List.take_append_drop j L, serialise_append]
     exact List.drop_left
@@ -437,7 +437,7 @@ theorem find_after_data_cut (init : Dir) (cur : File) (k b e : Nat) (res : Bytes
     (hidx : IndexCorrect (b / 1000) (init ++ [cur])) :
     ∃ extra, (find (cutData (init ++ [cur]) k) {} b e res).2
         = specFind (retained init ++ wholeLines cur.lines k) b e res ++ extra ∧
-      ∀ x ∈ extra, x ∈ (parseLine (dropCR (fragment cur.lines k))).toList := by
+      ∀ x ∈ extra, x ∈ tornParse (fragment cur.lines k) := by
   have hcurf := hf cur (by simp)
   have hwl : ∀ x ∈ wholeLines cur.lines k, x ∈ cur.lines := fun x hx => (wholeLines_prefix _ _).subset hx
   have h0 : offsetStartAndFile (init ++ [cutF cur k]) {} b = (0, 0) := by simp [offsetStartAndFile, cacheOk]
@@ -492,7 +492,7 @@ theorem find_after_data_cut (init : Dir) (cur : File) (k b e : Nat) (res : Bytes
           exact ((List.pairwise_append.1 this).2.1).sublist (List.drop_sublist _ _)
         exact h1.sublist (wholeLines_prefix _ _).sublist
       obtain ⟨extra, hex, hsub⟩ := scan_sorted_plus_tail (b / 1000) (e / 1000) res _
-        (parseLine (dropCR (fragment (cur.lines.drop j) (k - (serialise (cur.lines.take j)).length)))).toList hsortW
+        (tornParse (fragment (cur.lines.drop j) (k - (serialise (cur.lines.take j)).length))) hsortW
         (fun it hit => hdrop it (List.mem_append_left _ (hW it hit)))
       refine ⟨extra, ?_, ?_⟩
       · rw [hex, hw, ← List.append_assoc, specFind_split _ _ b e res ?_
@@ -505,7 +505,7 @@ theorem find_after_data_cut (init : Dir) (cur : File) (k b e : Nat) (res : Bytes
         have := hsub y hy
         rcases hfr with hfr | hfr
         · rw [hfr] at this; exact this
-        · rw [hfr] at this; simp [dropCR, parseLine] at this
+        · rw [hfr] at this; simp [tornParse_nil] at this
     · -- the hit is in an earlier file: the cut file is read from its start
       rw [List.concat_eq_append] at hr
       subst hr
@@ -519,7 +519,7 @@ theorem find_after_data_cut (init : Dir) (cur : File) (k b e : Nat) (res : Bytes
         ⟨(hf g (by simp [hg])).1, (hf g (by simp [hg])).2.2⟩
       rw [hd, readByEnd_eq, hff.1.1, hoff, itemsFrom_serialise_at _ hff.2.2]
       have hseen : (List.flatMap (fun g => itemsFrom g.data 0) (mid ++ [cutF cur k]))
-          = retained mid ++ (wholeLines cur.lines k ++ (parseLine (dropCR (fragment cur.lines k))).toList) := by
+          = retained mid ++ (wholeLines cur.lines k ++ tornParse (fragment cur.lines k)) := by
         rw [List.flatMap_append, flatMap_itemsFrom mid hmid]
         simp only [List.flatMap_cons, List.flatMap_nil, List.append_nil]
         show _ ++ itemsFrom (cur.data.take k) 0 = _
@@ -542,12 +542,12 @@ theorem find_after_data_cut (init : Dir) (cur : File) (k b e : Nat) (res : Bytes
             (List.sublist_append_right _ _)
           simpa [retained] using (wholeLines_prefix cur.lines k).sublist
         exact hs.sublist hsub
-      have hre : f.lines.drop j ++ (retained mid ++ (wholeLines cur.lines k ++ (parseLine (dropCR (fragment cur.lines k))).toList))
-          = (f.lines.drop j ++ (retained mid ++ wholeLines cur.lines k)) ++ (parseLine (dropCR (fragment cur.lines k))).toList := by
+      have hre : f.lines.drop j ++ (retained mid ++ (wholeLines cur.lines k ++ tornParse (fragment cur.lines k)))
+          = (f.lines.drop j ++ (retained mid ++ wholeLines cur.lines k)) ++ tornParse (fragment cur.lines k) := by
         simp [List.append_assoc]
       rw [hre]
       obtain ⟨extra, hex, hsub⟩ := scan_sorted_plus_tail (b / 1000) (e / 1000) res _
-        (parseLine (dropCR (fragment cur.lines k))).toList hsortS hS
+        (tornParse (fragment cur.lines k)) hsortS hS
       refine ⟨extra, ?_, hsub⟩
       rw [hex]
       congr 1
